@@ -272,6 +272,7 @@ struct iwkv_cursor {
                                   If `skip_next > 0` `IWKV_CURSOR_NEXT` will be skipped
                                   If `skip_next < 0` `IWKV_CURSOR_PREV` will be skipped */
   struct sblk *cn;           /**< Current `SBLK` node */
+  struct sblk  cnb;          /**< Cursor owned storage for `cn` */
   struct iwkv_cursor *next;  /**< Next cursor in active db cursors chain */
   struct iwlctx       lx;    /**< Lookup context */
   off_t dbaddr;              /**< Database address used as `cn` */
